@@ -44,6 +44,11 @@ TECHNIQUE = "Coq proofs (codec inverses, self-delimiting stream, all-or-nothing 
 DESIGN_REF = "DESIGN.md §5 C07"
 
 
+# when a proof or the correspondence breaks, the engine searches the implementation for a
+# failing input with SEARCH_SCALE times the tier's budget
+SEARCH_SCALE = 1 if "thorough" in _sys.argv else 8
+
+
 def drivers():
     def args(tier, seed, scale):
         if tier == "quick":
